@@ -1,0 +1,24 @@
+//go:build verif
+
+package env
+
+// VerifEnvOp, when set by a verification harness, is called under the scope's
+// lock by every locked scope operation.  Build tag: verif.
+var VerifEnvOp func(op string, scope *Env, key string)
+
+func verifEnvOp(op string, scope *Env, key string) {
+	if h := VerifEnvOp; h != nil {
+		h(op, scope, key)
+	}
+}
+
+// VerifOuter returns the enclosing scope (nil for the root).
+func (e *Env) VerifOuter() *Env { return e.outer }
+
+// VerifHas reports whether the scope itself holds key (caller must not hold the lock).
+func (e *Env) VerifHas(key string) bool {
+	e.mu.RLock()
+	defer e.mu.RUnlock()
+	_, ok := e.data[key]
+	return ok
+}
